@@ -11,6 +11,7 @@ structure AState where
   accepted : List (String × Int × Int) := []   -- (nonce, signed time, window end) of every accepted request; the window
                                                -- end is signed time + tolerance, moved out by a reload that raises the
                                                -- tolerance while the window is still open
+  acceptedRaw : List String := []               -- every accepted signed request, verbatim (headers, method, path, body)
   n : Nat := 0
   bad : Nat := 0
 
@@ -31,7 +32,7 @@ def step (st : AState) (line : String) : AState × String :=
     let tag := line.trimAscii.toString
     match str j "k" with
     | "acfg" =>
-      ({ st with cfg := cfgOf (obj j "hmac"), cache := [], accepted := [],
+      ({ st with cfg := cfgOf (obj j "hmac"), cache := [], accepted := [], acceptedRaw := [],
                  users := (arr j "users").map (fun p => match asArr p with | [a, b] => (asStr a, asStr b) | _ => ("", "")) }, "ok")
     | "areload" =>
       -- the authenticator's nonce cache survives a reload; a longer tolerance extends the remembered windows
@@ -57,11 +58,17 @@ def step (st : AState) (line : String) : AState × String :=
         -- the window had closed under the tolerance in force when the request was accepted, and a reload that
         -- RAISED the tolerance re-opened it (the purged nonce cannot be remembered): a distinct, documented class
         let reopened := !replay && st.accepted.any (fun (n, t0, e) => n == nonce && decide (now > e) && decide (now ≤ t0 + st.cfg.tol))
+        -- "a captured valid request can never cause a second enqueue": the very same request accepted again, whatever the
+        -- instant (inside its window the nonce stops it, outside the tolerance check does)
+        let raw := s!"{rq.sig}|{rq.ts}|{rq.nonce}|{rq.method}|{rq.path}|{str j "body"}"
+        let twice := st.acceptedRaw.contains raw
         let st' := { st with cache := cache',
+                             acceptedRaw := if status == 202 && !twice then raw :: st.acceptedRaw else st.acceptedRaw,
                              accepted := if status == 202 then (nonce, tOK.getD 0, tOK.getD 0 + st.cfg.tol) :: st.accepted else st.accepted }
-        if status == 202 && !condOK then (st', s!"PROP C08,C17 accepted-without-valid-hmac in={tag}")
+        if status == 202 && !condOK && !twice then (st', s!"PROP C08,C17 accepted-without-valid-hmac in={tag}")
         else if status == 202 && replay then (st', s!"PROP C09 replay-accepted in={tag}")
         else if status == 202 && reopened then (st', s!"PROP C09 replay-accepted-after-tolerance-raised-by-reload in={tag}")
+        else if status == 202 && twice then (st', s!"PROP C09,C08 captured-request-enqueued-twice in={tag}")
         else if status != 202 && enq != 0 then (st', s!"PROP C08 denied-request-had-effect in={tag}")
         else if status == 202 && enq != 1 then (st', s!"DIVERGE enqueue-count in={tag}")
         else if ok && status == 401 then
